@@ -17,6 +17,7 @@ else), a source that raises in the middle of a decode, holes appearing and
 disappearing between operations.
 """
 import io
+import os
 
 from simkit.core import Violation
 from simkit.opmachine import OpMachine, World
@@ -34,7 +35,7 @@ class C25(OpMachine):
                        "miasm.loader.pe_init (PE source)", "VmMngr C extension built from the tree (vm source)"]
     stub_components = ["reference model: byte segments", "io.BytesIO as the file object"]
     assumptions = ["PE source: reads are issued inside section ranges (raw data + zero fill) or beyond the image; gaps between "
-                   "sections and the header are not judged", "ELF container not exercised (no ELF builder in miasm)",
+                   "sections and the header are not judged", "ELF source: two sample binaries of the tree; reads are judged inside the file-backed part of one PT_LOAD segment (parsed independently) or beyond the image",
                    "whether a failed decode leaves atomic mode on is counted (probe), not judged: the statement does not say"]
     quick_runs = 12000
     thorough_runs = 200000
@@ -42,7 +43,7 @@ class C25(OpMachine):
     expected_probes = ["getbytes_ok", "getbytes_fault", "getbits_ok", "getbits_fault", "getbits_cross_byte", "get_u_ok",
                        "get_u_fault", "get_u_big_endian", "readbs_ok", "readbs_fault", "atomic_section", "atomic_cached_hit",
                        "dis_ok", "dis_failed", "dis_reads_checked", "dis_fault_mid_decode", "vm_unmap", "vm_map",
-                       "src_str", "src_file", "src_pe", "src_vm", "cursor_moved_then_read"]
+                       "src_str", "src_file", "src_pe", "src_vm", "src_elf", "cursor_moved_then_read"]
 
     needs_build = True
     isolate_shrink = True
@@ -65,10 +66,43 @@ class C25(OpMachine):
             attrib = {"x86_32": 32, "arml": "l", "mips32l": "l", "ppc32b": "b", "aarch64l": "l", "msp430": None}[name]
             self.mns.append((name, m.mn, attrib))
         self.pe_cache = {}
+        # ELF containers: sample binaries shipped in the tree; the model is built from the PT_LOAD
+        # program headers parsed here with struct, not with miasm's loader
+        import struct
+        from miasm.loader import elf_init
+        self.elf_init = elf_init
+        self.elfs = []
+        from simkit.core import REPO
+        for rel in ("example/samples/md5_arm", "test/os_dep/linux/test_env.x86_64"):
+            path = os.path.join(REPO, rel)
+            try:
+                raw = open(path, "rb").read()
+            except IOError:
+                continue
+            is64 = raw[4] == 2
+            segs = []
+            if is64:
+                phoff, = struct.unpack_from("<Q", raw, 0x20)
+                phentsize, phnum = struct.unpack_from("<HH", raw, 0x36)
+                for i in range(phnum):
+                    p_type, p_flags, p_offset, p_vaddr, p_paddr, p_filesz, p_memsz = struct.unpack_from("<IIQQQQQ", raw, phoff + i * phentsize)
+                    if p_type == 1 and p_filesz:
+                        segs.append([p_vaddr, raw[p_offset:p_offset + p_filesz]])
+            else:
+                phoff, = struct.unpack_from("<I", raw, 0x1C)
+                phentsize, phnum = struct.unpack_from("<HH", raw, 0x2A)
+                for i in range(phnum):
+                    p_type, p_offset, p_vaddr, p_paddr, p_filesz, p_memsz = struct.unpack_from("<IIIIII", raw, phoff + i * phentsize)
+                    if p_type == 1 and p_filesz:
+                        segs.append([p_vaddr, raw[p_offset:p_offset + p_filesz]])
+            if segs:
+                self.elfs.append((rel, raw, segs))
 
     # ---- generation -------------------------------------------------------------
     def gen(self, rng, steer):
-        kind = rng.choice(["str", "file", "vm", "vm", "pe"])
+        kind = rng.choice(["str", "file", "vm", "vm", "pe", "elf"])
+        if kind == "elf" and not self.elfs:
+            kind = "str"
         nseg = 1 if kind in ("str", "file") else rng.randint(1, 3)
         segs = []
         addr = rng.choice([0, 0, 0x10, 0x1000, 0x400000])
@@ -79,6 +113,10 @@ class C25(OpMachine):
             addr += n + rng.choice([0, 0, 1, 5, 0x40])     # adjacent pages or a hole
         cfg = {"kind": kind, "segs": segs, "base_offset": rng.choice([0, 0, 0x100]) if kind == "vm" else 0,
                "big_endian": rng.random() < 0.3}
+        if kind == "elf":
+            cfg["elf"] = rng.randrange(len(self.elfs))
+            cfg["segs"] = []
+            nseg = len(self.elfs[cfg["elf"]][2])
         actions = []
         kinds = ["getbytes"] * 4 + ["getbits"] * 5 + ["get_u"] * 3 + ["readbs", "setoffset", "atomic"] + ["dis"] * 3
         if kind == "vm":
@@ -167,12 +205,24 @@ class C25(OpMachine):
             w.bs = bsm.bin_stream_pe(pe)
             w.max_addr = pe.virt.max_addr()
             w.cursor = 0
+        elif kind == "elf":
+            rel, raw, segs = self.elfs[cfg["elf"] % len(self.elfs)]
+            elf = self.elf_init.ELF(raw)
+            w.segs = [[a, d] for a, d in segs]
+            w.mapped = [True] * len(w.segs)
+            w.bs = self.bsm.bin_stream_elf(elf)
+            w.max_addr = elf.virt.max_addr() + 0x1000
+            w.cursor = 0
         w.bs_default_be = w.bs.endianness == self.BE
         return w
 
     def _addr(self, w, where):
         seg, edge, delta = where
         s, d = w.segs[seg % len(w.segs)]
+        if w.kind == "elf":
+            if delta > 7:
+                return w.max_addr + delta
+            return (s if edge == "start" else s + len(d)) + (abs(delta) if edge == "start" else -abs(delta) - 1)
         if w.kind == "pe":
             # around the section start, around the end of raw data, or beyond the image
             if edge == "start":
@@ -200,7 +250,7 @@ class C25(OpMachine):
 
     def _judgeable(self, w, addr, n):
         """PE: only ranges inside one section or beyond the image are judged."""
-        if w.kind != "pe":
+        if w.kind not in ("pe", "elf"):
             return True
         if addr >= w.max_addr:
             return True
@@ -288,7 +338,7 @@ class C25(OpMachine):
             self._check(w, "get_u%d(%#x, %s)" % (size, addr, en), facts, got, exc, want)
         elif k == "readbs":
             n = a[1]
-            if w.kind == "pe":
+            if w.kind in ("pe", "elf"):
                 return
             got, exc = self._call(bs.readbs, n)
             want = self._model_read(w, w.cursor, n)
@@ -299,7 +349,7 @@ class C25(OpMachine):
                 w.cursor += n
         elif k == "setoffset":
             addr = self._addr(w, a[1])
-            if w.kind == "pe" or addr < 0:
+            if w.kind in ("pe", "elf") or addr < 0:
                 return
             if w.kind == "file" and addr < w.segs[0][0]:
                 return       # a file cannot seek before its start
